@@ -289,6 +289,29 @@ def snaprace_scenarios():
                     st += catchup + ops(["w7"]) + catchup
                 out.append({"name": "snaplead-p%d-%s%s" % (pad, when, "-crash" if crash else ""), "family": "snap", "voters": ["a", "b", "c"],
                             "controlled": True, "auto": False, "heal": True, "heal_et": 60, "snap_pad": pad, "stimuli": st})
+    # follower side, two installations overlapping: the request for an OLDER snapshot was delayed and
+    # arrives while the newer one is being restored (Restore gated: the handler has published the
+    # newer snapshot and released the lock) - before the restore, in the middle of it, after it
+    for when in ("before", "during", "after"):
+        for crash in (False, True):
+            st = [{"op": "nolimit"}] + E + ops(["w1", "w2"]) + [{"op": "snapnow", "n": "a"}] + ops(["w3"])
+            st += [{"op": "hb", "n": "a"}]                                   # IS(older) on the wire, kept
+            st += ops(["w4", "w5"]) + [{"op": "snapnow", "n": "a"}] + ops(["w6"])      # newer snapshot, transfer files reset
+            st += [{"op": "hb", "n": "a"}]                                   # IS(newer) on the wire
+            older = [{"op": "deliver", "kind": "is", "from": "a", "to": "c", "sel": "first", "off0": True}]     # the first complete request: the older snapshot
+            newer = [{"op": "deliver", "kind": "is", "from": "a", "to": "c", "off0": True}]                      # the last complete request: the newer one
+            if when == "before":
+                st += older + newer
+            elif when == "during":
+                st += [{"op": "gate", "n": "c", "w": "restore"}] + newer + older + [{"op": "release", "n": "c", "w": "restore"}]
+            else:
+                st += newer + older
+            st += [{"op": "reply", "kind": "is", "from": "a", "to": "c"}, {"op": "reply", "kind": "is", "from": "a", "to": "c"}]
+            if crash:
+                st += [{"op": "crash", "n": "c"}, {"op": "restart", "n": "c"}]
+            st += catchup + ops(["w7"]) + catchup
+            out.append({"name": "snapolder-%s%s" % (when, "-crash" if crash else ""), "family": "snap", "voters": ["a", "b", "c"],
+                        "controlled": True, "auto": False, "heal": True, "heal_et": 60, "snap_pad": 100, "stimuli": st})
     return out
 
 
@@ -524,7 +547,7 @@ RULES = {
 PROPS = {
     "C01": dict(fams=[("core", 3), ("crash", 2), ("snap", 2)], corpus=["core", "crash", "snap"], mc="MC_core3", mc_deep="MC_core3_deep", gen=[("Gen_core3", ["a", "b", "c"], 40)]),
     "C02": dict(fams=[("core", 3), ("crash", 2)], corpus=["core", "crash"], mc="MC_core3", mc_deep="MC_core3_deep", gen=[("Gen_core3", ["a", "b", "c"], 40), ("Gen_async3", ["a", "b", "c"], 45)]),
-    "C03": dict(fams=[("core", 3), ("crash", 1), ("snap", 2)], corpus=["core", "snap"], mc="MC_core3", mc_deep="MC_core3_deep", gen=[("Gen_core3", ["a", "b", "c"], 40)]),
+    "C03": dict(fams=[("core", 3), ("crash", 1), ("snap", 2)], corpus=["core", "snap", "api"], mc="MC_core3", mc_deep="MC_core3_deep", gen=[("Gen_core3", ["a", "b", "c"], 40)]),
     "C04": dict(fams=[("crash", 5)], corpus=["crash"], mc="MC_crash3", mc_deep="MC_crash3_deep"),
     "C05": dict(fams=[("reads", 5)], corpus=["reads"], mc="MC_reads3", mc_deep="MC_reads3_deep", gen=[("Gen_async3", ["a", "b", "c"], 45)]),
     "C06": dict(fams=[("core", 3), ("crash", 2)], corpus=["core", "crash"], mc="MC_core3", mc_deep="MC_core3_deep", gen=[("Gen_core3", ["a", "b", "c"], 40)], hae=True),
